@@ -259,8 +259,9 @@ nni_id_remove(nni_id_map *m, uint64_t id)
 
 	m->id_count--;
 
-	// Shrink -- but it's ok if we can't.
-	(void) id_resize(m);
+	// No shrinking here: entries may be removed while the map is being
+	// iterated (nni_id_visit), and rehashing would move the rest under
+	// the iterator's cursor.  The next nni_id_set shrinks the table.
 
 	return (0);
 }
